@@ -193,6 +193,11 @@ func runC07(r *Run, rng *Rng, thorough bool) {
 						{"unknown+other-null", -2, nil, "", nil, "!unknown"},
 						{"profile-empty-string", profKey, nTstr(""), jn, jS(""), "!unknown"},
 					}
+					if p == 2 {
+						for _, sp := range []string{"HTTP://arm.com/psa/2.0.0", "http://arm.com/psa/2.0.0#", "http://ARM.com/psa/2.0.0", "http://arm.com/psa/2.0.0/"} {
+							vs = append(vs, variant{"profile-near-miss", profKey, nTstr(sp), jn, jS(sp), "!unknown"})
+						}
+					}
 					for _, e := range rs.extras {
 						// JSON: the value counts as declared only under the member name of the extension's own profile field
 						d1, d2 := "?", "?"
@@ -251,6 +256,15 @@ func runC07(r *Run, rng *Rng, thorough bool) {
 						text := []byte(j.Text())
 						jres := dispatch(func() (psa.IClaims, error) { return psa.DecodeClaimsFromJSON(append([]byte{}, text...)) })
 						r.Case(fmt.Sprintf("p%d/json/%s", p, v.class), false, fmt.Sprintf("dispatch-json reg=%s %s", regp, j.Proto()), jres.String())
+						// the same document with the profile name written with JSON string escapes declares the same profile
+						if esc := strings.NewReplacer(`"http://arm.com/psa/2.0.0"`, `"http:\/\/arm.com\/psa\/2.0.0"`, `"PSA_IOT_PROFILE_1"`, `"PSA\u005fIOT_PROFILE_1"`,
+							`"http://example.com/`, `"http:\/\/example.com\/`).Replace(string(text)); esc != string(text) {
+							eres := dispatch(func() (psa.IClaims, error) { return psa.DecodeClaimsFromJSON([]byte(esc)) })
+							r.ImplOnly(fmt.Sprintf("p%d/json-escaped/%s", p, v.class), true, "dispatch-json-escaped "+esc)
+							if eres.String() != jres.String() {
+								r.Fail("json-dispatch-order", fmt.Sprintf("json %s: the document with its profile name written with string escapes is dispatched differently: %s vs %s", v.class, eres, jres))
+							}
+						}
 						c07Judge(r, rs, p, v.class, v.declared, "cbor", cres, t)
 						c07Judge(r, rs, p, v.class, v.declared, "json", jres, nil)
 						// the register is a Go map: repeat the JSON dispatch to cover its iteration orders
